@@ -75,6 +75,8 @@ module Coq_Pos :
 
   val pred_double : positive -> positive
 
+  val pred_N : positive -> n
+
   type mask = Pos.mask =
   | IsNul
   | IsPos of positive
@@ -94,11 +96,23 @@ module Coq_Pos :
 
   val iter : ('a1 -> 'a1) -> 'a1 -> positive -> 'a1
 
+  val div2 : positive -> positive
+
+  val div2_up : positive -> positive
+
   val compare_cont : comparison -> positive -> positive -> comparison
 
   val compare : positive -> positive -> comparison
 
   val eqb : positive -> positive -> bool
+
+  val coq_Nsucc_double : n -> n
+
+  val coq_Ndouble : n -> n
+
+  val coq_lxor : positive -> positive -> n
+
+  val testbit : positive -> n -> bool
 
   val iter_op : ('a1 -> 'a1 -> 'a1) -> positive -> 'a1 -> 'a1
 
@@ -113,6 +127,8 @@ module N :
 
   val double : n -> n
 
+  val succ_pos : n -> positive
+
   val sub : n -> n -> n
 
   val compare : n -> n -> comparison
@@ -120,6 +136,10 @@ module N :
   val leb : n -> n -> bool
 
   val pos_div_eucl : positive -> n -> n * n
+
+  val coq_lxor : n -> n -> n
+
+  val testbit : n -> n -> bool
  end
 
 val nth : int -> 'a1 list -> 'a1 -> 'a1
@@ -188,6 +208,8 @@ module Z :
 
   val div_eucl : z -> z -> z * z
 
+  val div : z -> z -> z
+
   val modulo : z -> z -> z
 
   val quotrem : z -> z -> z * z
@@ -195,6 +217,18 @@ module Z :
   val quot : z -> z -> z
 
   val rem : z -> z -> z
+
+  val odd : z -> bool
+
+  val div2 : z -> z
+
+  val testbit : z -> z -> bool
+
+  val shiftl : z -> z -> z
+
+  val shiftr : z -> z -> z
+
+  val coq_lxor : z -> z -> z
  end
 
 type scalar = { s0 : __; s1 : __; sadd : (__ -> __ -> __);
@@ -639,6 +673,110 @@ val network4_accepts_all :
   list -> int list -> int list -> (int -> t) -> (int -> t) -> (int -> t) ->
   (int -> t) -> bool
 
+val wrap0 : z -> z -> z
+
+val map2 : ('a1 -> 'a2 -> 'a3) -> 'a1 list -> 'a2 list -> 'a3 list
+
+val l_add : z -> z -> z -> z
+
+val l_sub : z -> z -> z -> z
+
+val l_mul : z -> z -> z -> z
+
+val l_neg : z -> z -> z
+
+val l_abs : z -> z -> z
+
+val l_div : z -> z -> z -> z
+
+val v_add : z -> z list -> z list -> z list
+
+val v_sub : z -> z list -> z list -> z list
+
+val v_mul : z -> z list -> z list -> z list
+
+val v_div : z -> z list -> z list -> z list
+
+val v_min : z list -> z list -> z list
+
+val v_max : z list -> z list -> z list
+
+val v_neg : z -> z list -> z list
+
+val v_abs : z -> z list -> z list
+
+val v_fmadd : z -> z list -> z list -> z list -> z list
+
+val v_fmsub : z -> z list -> z list -> z list -> z list
+
+val v_fnmadd : z -> z list -> z list -> z list -> z list
+
+val v_reverse : z list -> z list
+
+val v_set : z list -> z list
+
+val v_set_sequential : z -> int -> z -> z list
+
+val h_sum : z -> z list -> z
+
+val h_prod : z -> z list -> z
+
+val h_dot : z -> z list -> z list -> z
+
+val h_min : z list -> z
+
+val h_max : z list -> z
+
+val u32 : z -> z
+
+val s32 : z -> z
+
+val ln : z list -> int -> z
+
+val mM_SHUFFLE : z -> z -> z -> z -> z
+
+val shuffle_epi32 : z list -> z -> z list
+
+val add_epi32 : z list -> z list -> z list
+
+val sub_epi32 : z list -> z list -> z list
+
+val mul_epu32 : z list -> z list -> z list
+
+val unpacklo_epi32 : z list -> z list -> z list
+
+val unpackhi_epi32 : z list -> z list -> z list
+
+val unpacklo_epi64 : z list -> z list -> z list
+
+val srai_epi32 : z list -> z -> z list
+
+val xor_si128 : z list -> z list -> z list
+
+val cvtsi128_si32 : z list -> z
+
+val setzero : z list
+
+val sum_epi32 : z list -> z
+
+val prod_epi32 : z list -> z
+
+val mul_epi32x_sse2 : z list -> z list -> z list
+
+val reverse_epi32 : z list -> z list
+
+val abs_epi32_sse2 : z list -> z list
+
+val neg_epi32 : z list -> z list
+
+val dot_epi32_sse2 : z list -> z list -> z
+
+val mask_to_array : int -> z -> bool list
+
+val mask_store_fb : int -> z -> z list -> (int -> z) -> int -> z
+
+val mask_load_fb : int -> z -> (int -> z) -> z list
+
 val run_matmul_Z :
   cfg -> ety -> int -> int -> int -> z list -> z list -> z list
 
@@ -714,3 +852,11 @@ val run_network4 :
   int list -> int list -> int list -> int list -> int list -> int list -> int
   list -> int list -> z list -> z list -> z list -> z list -> int
   list * (bool list * z list)
+
+val run_simd_int : z -> int -> z list -> z list -> z list -> z list
+
+val run_simd_sse2 : int -> z list -> z list -> z list
+
+val run_mask_store : int -> z -> z list -> z list -> z list
+
+val run_mask_load : int -> z -> z list -> z list
